@@ -55,6 +55,17 @@ ASSUMPTIONS = [
     "'planar' in the laplacian sub-check means embedded in the plane z=0 with one orientation (edge flips can fold a sheet over)",
 ]
 
+# With a caller-supplied connection whose face bases are not on the constrained edge, /repo's face field hard-codes the 4th
+# power of the edge direction whatever the order (proposed fix scratch/fixes/C18-6-*.diff): until that is repaired, tangency
+# with a custom connection is asserted for order 4 only. Set to True (or C18_ASSERT_CUSTOM_TANGENCY=1) once the fix is in.
+ASSERT_CUSTOM_TANGENCY_ANY_ORDER = __import__('os').environ.get('C18_ASSERT_CUSTOM_TANGENCY') == '1'
+
+# With config.display_duplicate_attribute_warning = True, /repo's face field re-uses the 'fixed' face attribute left on the
+# mesh by an earlier field (stale flags when the earlier field had more constrained faces; proposed fix
+# scratch/fixes/C18-7-*.diff). Until that is repaired, histories under that switch keep one `features` value for all their
+# face fields (same constrained faces). Set to True (or C18_FIXED_ATTRIBUTE_LOCAL=1) once the fix is in.
+FIXED_ATTRIBUTE_IS_LOCAL = __import__('os').environ.get('C18_FIXED_ATTRIBUTE_LOCAL') == '1'
+
 TOL_UNIT = 1e-9
 TOL_SOLVE = 1e-8
 COND_MAX = 1e6
@@ -207,7 +218,11 @@ SCALES = [1.0, 1.0, 1.0, 1e-3, 1e3, 1e-6, 1e6]
 @st.composite
 def extras(draw):
     """uniform scale of the geometry (the field is scale free), integer-typed coordinates, verbose switch"""
-    return {"scale": draw(st.sampled_from(SCALES)), "int_coords": draw(st.integers(0, 3)) == 0, "verbose": draw(st.integers(0, 4)) == 0}
+    return {"scale": draw(st.sampled_from(SCALES)), "int_coords": draw(st.integers(0, 3)) == 0, "verbose": draw(st.integers(0, 4)) == 0,
+            "dup_warning": draw(st.booleans()), "pre_attrs": draw(st.integers(0, 2)) == 0,
+            "offset_k": draw(st.sampled_from([0, 0, 0, 300, 300000])), "sort_off": draw(st.integers(0, 3)) == 0,
+            "face_dtype": draw(st.sampled_from([None, None, None, "int32", "uint8", "int16", "int64"])),
+            "bad_first": draw(st.integers(0, 4)) == 0}
 
 
 @st.composite
@@ -226,6 +241,7 @@ def sequence_case(draw):
     steps = draw(st.lists(step(), min_size=2, max_size=4))
     ex = draw(extras())
     return {"V": s["V"], "F": s["F"], "tags": s["tags"], "steps": steps, "scale": ex["scale"], "int_coords": ex["int_coords"],
+            "dup_warning": ex["dup_warning"], "pre_attrs": ex["pre_attrs"], "offset_k": ex["offset_k"], "face_dtype": ex["face_dtype"],
             "repeat_first": draw(st.booleans())}
 
 
@@ -264,8 +280,16 @@ def laplacian_case(draw):
 
 def make_ff(case, mesh):
     from mouette.processing.framefield.framefield import SurfaceFrameField
+    kw = {}
+    if case.get("custom"):
+        # documented option custom_connection: a connection object built by the caller
+        from mouette.processing import connection as C
+        if case["custom"] == "flat":
+            kw["custom_connection"] = (C.FlatConnectionVertices if case["elements"] == "vertices" else C.FlatConnectionFaces)(mesh)
+        else:
+            kw["custom_connection"] = (C.SurfaceConnectionVertices if case["elements"] == "vertices" else C.SurfaceConnectionFaces)(mesh)
     return SurfaceFrameField(mesh, case["elements"], order=int(case["order"]), features=bool(case["features"]),
-                             verbose=bool(case.get("verbose", False)),
+                             verbose=bool(case.get("verbose", False)), **kw,
                              n_smooth=int(case["n_smooth"]), smooth_attach_weight=eff_alpha(case),
                              use_cotan=bool(case["cotan"]), cad_correction=bool(case["cad"]),
                              smooth_normals=bool(case["smooth_normals"]))
@@ -287,24 +311,67 @@ def quiet(f):
 
 
 def realise(case):
-    """apply the drawn uniform scale (and integer typing of the coordinates) to the case geometry"""
+    """apply the drawn uniform scale and the translation (offset_k x scale x (1,-2,3): the field is translation invariant; with
+    offset/size up to ~1e6 the geometry keeps ~1e-10 relative accuracy, well inside every tolerance used here)"""
     sc = float(case.get("scale", 1.0))
-    V = [[float(x) * sc for x in v] for v in case["V"]]
+    k = float(case.get("offset_k", 0.0))
+    off = (k * sc * 1.0, k * sc * -2.0, k * sc * 3.0)
+    V = [[float(x) * sc + o for x, o in zip(v, off)] for v in case["V"]]
     return dict(case, V=V)
 
 
+def apply_config(case, ctx):
+    """library-wide switches drawn per case (the runner restores mouette.config after every case)"""
+    import mouette as M
+    M.config.display_duplicate_attribute_warning = bool(case.get("dup_warning", False))
+    ctx.label("config.dup_warning=%s" % bool(case.get("dup_warning", False)))
+    # unsorted neighbourhoods: only where no vertex ring order is needed (face fields; the vertex connection walks the rings)
+    if case.get("sort_off") and case.get("elements") == "faces":
+        M.config.sort_neighborhoods = False
+        ctx.label("config.sort_neighborhoods=False")
+    if case.get("face_dtype"):
+        ctx.label("face_dtype=" + str(case["face_dtype"]))
+    if case.get("offset_k"):
+        ctx.label("offset/size=%g" % float(case["offset_k"]))
+
+
+def prior_use(case, mesh, ctx):
+    """the mesh may have been used before: public attribute functions called on it with their default (persistent) settings"""
+    if not case.get("pre_attrs"):
+        return True
+    import mouette as M
+    ctx.label("prior-attribute-calls")
+    A = M.attributes
+    for f in (A.angle_defects, A.corner_angles, A.cotangent, A.vertex_normals, A.face_normals, A.face_area, A.edge_length):
+        ok, _ = ctx.call("prior:" + f.__name__, f, mesh)
+        if not ok:
+            return False
+    return True
+
+
 def build_mesh(case):
-    """case geometry already realised; int_coords: coordinates handed over as integer numpy rows when they are integral"""
+    """case geometry already realised; int_coords: coordinates handed over as integer numpy rows when they are integral;
+    face_dtype: faces handed over as numpy rows of a (narrow) integer dtype"""
+    import mouette as M
+    from mouette.mesh.mesh_data import RawMeshData
     V = case["V"]
     # (magnitudes kept below 1e5: int64 products of three coordinates overflow silently beyond, which is numpy's arithmetic)
-    if case.get("int_coords") and all(float(x).is_integer() and abs(x) < 1e5 for v in V for x in v):
-        import mouette as M
-        from mouette.mesh.mesh_data import RawMeshData
-        raw = RawMeshData()
+    as_int = bool(case.get("int_coords")) and all(float(x).is_integer() and abs(x) < 1e5 for v in V for x in v)
+    fd = case.get("face_dtype")
+    if fd and len(V) > np.iinfo(np.dtype(fd)).max:
+        fd = None
+    if not as_int and not fd:
+        return surface_from(V, case["F"]), False
+    raw = RawMeshData()
+    if as_int:
         raw.vertices += [np.array([int(x) for x in v], dtype=np.int64) for v in V]
+    else:
+        raw.vertices += [list(map(float, v)) for v in V]
+    if fd:
+        raw.faces += [np.array(f, dtype=np.dtype(fd)) for f in case["F"]]
+    else:
         raw.faces += [list(f) for f in case["F"]]
-        return M.mesh.SurfaceMesh(raw), True
-    return surface_from(V, case["F"]), False
+    return M.mesh.SurfaceMesh(raw), as_int
 
 
 class Prefixed:
@@ -359,7 +426,8 @@ def vertex_angle_sums(V, F):
 
 
 def min_vertex_normal_norm(V, F):
-    """smallest norm of the angle-weighted sum of unit face normals around a vertex (0 = the vertex has no tangent plane)"""
+    """smallest norm of the angle-weighted sum of unit face normals around a vertex (0 = the vertex has no tangent plane, or an
+    incident edge is (nearly) along the vertex normal and so has no direction in that plane)"""
     A = np.array(V)
     N = face_normals(V, F)
     acc = np.zeros((len(V), 3))
@@ -369,7 +437,21 @@ def min_vertex_normal_norm(V, F):
             u, w = q - p, r - p
             acc[f[k]] += math.atan2(np.linalg.norm(np.cross(u, w)), float(np.dot(u, w))) * N[iF]
     used = sorted(set(v for f in F for v in f))
-    return float(np.min(np.linalg.norm(acc[used], axis=1)))
+    nrm = np.linalg.norm(acc, axis=1)
+    worst = float(np.min(nrm[used]))
+    if worst < 1e-3:
+        return worst
+    # an incident edge along the vertex normal has no direction in the tangent plane either (it may be the reference edge)
+    N = acc / np.maximum(nrm, 1e-300)[:, None]
+    for f in F:
+        for k in range(3):
+            a, b = f[k], f[(k + 1) % 3]
+            E = A[b] - A[a]
+            le = float(np.linalg.norm(E))
+            for u in (a, b):
+                if float(np.linalg.norm(np.cross(E, N[u]))) < 0.05 * le:
+                    return 0.0
+    return worst
 
 
 def dense(M_):
@@ -575,14 +657,56 @@ def fn_field(case, ctx):
     ref = check_surface(case)
     case = realise(case)
     if case["elements"] == "vertices" and min_vertex_normal_norm(case["V"], case["F"]) < 1e-3:
-        ctx.discard("a vertex without tangent plane (incident face normals cancel)")
+        ctx.discard("a vertex without usable tangent plane (face normals cancel / an incident edge along the normal)")
         return
+    apply_config(case, ctx)
     mesh, as_int = build_mesh(case)
     ctx.label("scale=%g" % float(case.get("scale", 1.0)), "verbose=%s" % bool(case.get("verbose", False)))
     if as_int:
         ctx.label("int-coords")
+    if not prior_use(case, mesh, ctx):
+        return
+    if case.get("bad_first") and not rejected_calls(case, mesh, ctx):
+        return
     if check_field(case, mesh, ref, ctx) is not None:
         mesh_unchanged(case, mesh, ctx)
+
+
+def rejected_calls(case, mesh, ctx):
+    """calls the documentation says are refused (order < 1, n_smooth < 0, attach weight <= 0, unknown element kind, optimize /
+    flag_singularities before initialize), made on the mesh before the real computation: they must raise, leave the
+    library-wide switches alone, and the ordinary computation afterwards must be unaffected"""
+    import mouette as M
+    from mouette.processing.framefield.framefield import SurfaceFrameField
+    ctx.label("rejected-calls-first")
+    cfg0 = {k: getattr(M.config, k) for k in ("complete_edges_from_faces", "sort_neighborhoods", "display_duplicate_attribute_warning")}
+    bad = [dict(order=0), dict(order=-3), dict(n_smooth=-1), dict(smooth_attach_weight=-1.0), dict(smooth_attach_weight=0.0)]
+    for kw in bad:
+        try:
+            SurfaceFrameField(mesh, case["elements"], **dict(dict(order=int(case["order"]), verbose=False), **kw))
+            raised = False
+        except Exception:
+            raised = True
+        if not ctx.check(raised, "invalid-argument-accepted", f"SurfaceFrameField(mesh, {case['elements']!r}, {kw}) did not raise"):
+            return False
+    try:
+        SurfaceFrameField(mesh, "cells", order=4)
+        raised = False
+    except Exception:
+        raised = True
+    if not ctx.check(raised, "invalid-argument-accepted", "SurfaceFrameField(mesh, 'cells') did not raise"):
+        return False
+    ff = make_ff(case, mesh)
+    for name in ("optimize", "flag_singularities"):
+        try:
+            quiet(getattr(ff, name))()
+            raised = False
+        except Exception:
+            raised = True
+        if not ctx.check(raised, "uninitialised-field-accepted", f"{name}() before initialize() did not raise"):
+            return False
+    cfg1 = {k: getattr(M.config, k) for k in cfg0}
+    return ctx.check(cfg0 == cfg1, "config-changed-by-rejected-call", f"library-wide switches changed from {cfg0} to {cfg1} by calls that raised")
 
 
 def check_field(case, mesh, ref, ctx, where="", rng_seed=None):
@@ -635,7 +759,8 @@ def check_field(case, mesh, ref, ctx, where="", rng_seed=None):
     # vertex field following the edges in the connection's own metric (smooth_normals off, or an odd order): at a border
     # vertex the connection is scaled so that both border edges sit at a multiple of 2pi/order, so the constraint, measured
     # against either border edge, is the trivial frame
-    if elements == "vertices" and not case["cad"] and not case["features"] and (not case["smooth_normals"] or order % 2 == 1):
+    if elements == "vertices" and not case["cad"] and not case["features"] and (not case["smooth_normals"] or order % 2 == 1) \
+            and not case.get("custom"):
         for (a, b) in sorted(border_e):
             for (u, v) in ((a, b), (b, a)):
                 q = var0[u] * cmath.exp(-1j * order * float(ff.conn.transport(u, v)))
@@ -738,6 +863,9 @@ def check_field(case, mesh, ref, ctx, where="", rng_seed=None):
             th = cmath.phase(complex(var[T]))
             best = min(float(np.linalg.norm(np.cross(math.cos((th + 2 * k * math.pi) / order) * X + math.sin((th + 2 * k * math.pi) / order) * Y, e)))
                        for k in range(order))
+            if case.get("custom") and order != 4 and not ASSERT_CUSTOM_TANGENCY_ANY_ORDER:
+                ctx.label("custom-connection:tangency-not-asserted(order!=4)")
+                continue
             if not ctx.check(best <= 1e-7, "branch-not-tangent",
                              f"face {T} {F[T]} has exactly one constrained edge {(p, q)} but no branch of the order-{order} frame is "
                              f"parallel to it (smallest |sin| = {best:.3e}, var = {var[T]})"):
@@ -824,8 +952,14 @@ def fn_sequence(case, ctx):
     steps = [dict(st_) for st_ in case["steps"]]
     if case.get("repeat_first"):
         steps.append(dict(steps[0]))           # a re-computed field after others
+    if case.get("dup_warning") and not FIXED_ATTRIBUTE_IS_LOCAL:
+        ff_ = [c for c in steps if c["elements"] == "faces"]
+        if len(set(bool(c["features"]) for c in ff_)) > 1:
+            for c in ff_:
+                c["features"] = ff_[0]["features"]
+            ctx.label("dup_warning:face-steps-share-features(C18-7)")
     if any(c["elements"] == "vertices" for c in steps) and min_vertex_normal_norm(V, F) < 1e-3:
-        ctx.discard("a vertex without tangent plane (incident face normals cancel)")
+        ctx.discard("a vertex without usable tangent plane (face normals cancel / an incident edge along the normal)")
         return
     for t in case.get("tags", []):
         if t.startswith("base=") or t in ("closed", "bordered"):
@@ -836,9 +970,12 @@ def fn_sequence(case, ctx):
     nface = sum(1 for k in kinds if k[0] == "faces")
     ctx.label("face-fields>=2" if nface >= 2 else "face-fields<2")
     ctx.nontrivial(len(set(kinds)) >= 2 and any(not ref.edge_on_border(*e) for e in ref.uedges))
+    apply_config(case, ctx)
     mesh, as_int = build_mesh(case)
     if as_int:
         ctx.label("int-coords")
+    if not prior_use(case, mesh, ctx):
+        return
     sing_sets = []
     earlier = []
     for k, cfg in enumerate(steps):
@@ -896,6 +1033,52 @@ def fn_sequence(case, ctx):
                 return
             ctx.label("earlier-field-reflagged")
     mesh_unchanged(case, mesh, ctx)
+
+
+# ----------------------------------------------------------------------------------------------- sub-check: custom connection
+
+@st.composite
+def custom_case(draw):
+    """documented option custom_connection: Flat connections on an embedded planar mesh turned by an arbitrary in-plane angle,
+    or a SurfaceConnectionFaces built by the caller with its default (border-only) features while the field uses creases"""
+    kind = draw(st.sampled_from(["flat", "surface", "flat"]))
+    if kind == "flat":
+        elements = draw(st.sampled_from(["faces", "vertices", "faces"]))
+        s = draw(st.one_of(panels(roof=False, min_size=2), panels(roof=False, fix_ears=True, min_size=3), good_delaunay(height=False)))
+        ang = draw(st.floats(0.0, 6.28))
+        ca, sa = math.cos(ang), math.sin(ang)
+        V = s["V"]
+        if "rigid" in s["tags"] or any(abs(v[2]) > 1e-12 for v in V):
+            V0, F0 = tri_grid(3, 3, [0, 1, 1], fix_ears=True)
+            s = {"V": V0, "F": F0, "tags": ["base=panel"] + G.tags_of(V0, F0)}
+            V = s["V"]
+        V = [[ca * v[0] - sa * v[1], sa * v[0] + ca * v[1], 0.0] for v in V]
+        s = dict(s, V=V)
+        features = draw(st.booleans())
+    else:
+        elements = "faces"
+        s = draw(st.one_of(panels(roof=True, min_size=3), panels(roof=True, fix_ears=True, min_size=3), G.well_shaped_trisurf(max_faces=60, bordered=True)))
+        features = True
+    return {"V": s["V"], "F": s["F"], "tags": s["tags"], "custom": kind, "elements": elements,
+            "order": draw(st.sampled_from([4, 4, 2, 1, 3, 6, 5])), "features": features,
+            "n_smooth": draw(st.sampled_from([0, 0, 1, 2])), "alpha": draw(st.sampled_from(ALPHAS)), "cotan": draw(st.booleans()),
+            "smooth_normals": draw(st.booleans()), "cad": False,
+            "ops": draw(OPS) if elements == "faces" else ["flag"]}
+
+
+def fn_custom(case, ctx):
+    ref = check_surface(case)
+    V, F = case["V"], case["F"]
+    if case["custom"] == "flat":
+        A3 = np.array(V)
+        sa = [float(np.cross(A3[f[1]] - A3[f[0]], A3[f[2]] - A3[f[0]])[2]) for f in F]
+        if not (all(x > 1e-9 for x in sa) or all(x < -1e-9 for x in sa)) or any(abs(v[2]) > 1e-12 for v in V):
+            ctx.discard("flat connection needs a mesh embedded in the plane z = 0")
+            return
+    ctx.label("custom=" + case["custom"])
+    mesh = surface_from(V, F)
+    if check_field(case, mesh, ref, ctx) is not None:
+        mesh_unchanged(case, mesh, ctx)
 
 
 # ----------------------------------------------------------------------------------------------- sub-check: large
@@ -1075,7 +1258,7 @@ def fn_renumber(case, ctx):
     V2, F2, perm = G.relabel(V, F, int(case["perm_seed"]), do_vperm=True, do_fperm=False, do_rot=True)
     why = constraint_well_posed(case, ref, ctx)
     if elements == "vertices" and min_vertex_normal_norm(V, F) < 1e-3:
-        ctx.discard("a vertex without tangent plane (incident face normals cancel)")
+        ctx.discard("a vertex without usable tangent plane (face normals cancel / an incident edge along the normal)")
         return
     r1 = run_field(case, V, F, ctx, "original")
     if r1 is None: return
@@ -1289,6 +1472,7 @@ def self_test():
 SUBCHECKS = [
     SubCheck("field", field_case(), fn_field, quick=2000, thorough=8000),
     SubCheck("sequence", sequence_case(), fn_sequence, quick=320, thorough=1500),
+    SubCheck("custom_connection", custom_case(), fn_custom, quick=320, thorough=1000),
     SubCheck("large", large_case(), fn_large, quick=16, thorough=12, watchdog=(240, 900)),
     SubCheck("renumber_vertices", renumber_case("vertices"), fn_renumber, quick=400, thorough=1500),
     SubCheck("renumber_faces", renumber_case("faces"), fn_renumber, quick=400, thorough=1500),
